@@ -733,7 +733,7 @@ theorem lf_spec {t : VT} (g : Geo t) :
           have n1 : ¬ t.viewportY + r < t.viewportY := by omega
           by_cases l : r + 1 < t.viewportHeight
           · have l' : t.viewportY + r < t.viewportY + t.viewportHeight - 1 := by omega
-            rw [if_neg n1, if_pos l', if_pos l]
+            rw [if_neg n1, if_pos l', if_pos l, Nat.add_assoc]
           · have l' : ¬ t.viewportY + r < t.viewportY + t.viewportHeight - 1 := by omega
             have l'' : t.viewportY + r = t.viewportY + t.viewportHeight - 1 := by omega
             rw [if_neg n1, if_neg l', if_pos l'', if_neg l]
@@ -748,7 +748,8 @@ theorem Term.lf_cx (t : Term) (x : Nat) : ({ t with cx := x } : Term).lf = t.lf 
 
 theorem doWrite_spec {t : VT} (i : Inv t) (b : UInt8) (adv : Bool) :
     ∃ t', doWrite t b adv = .ok t' ∧ Inv t' ∧
-      absVT t' = (if adv then (absVT t).putAdv b else (absVT t).put b) ∧ t'.active = t.active := by
+      absVT t' = (if adv then (absVT t).putAdv b else (absVT t).put b) ∧ t'.active = t.active ∧
+      (∀ K0, Sync K0 t → Sync K0 t') ∧ (t.active = false → t'.out = t.out) := by
   have g := i.toGeo
   have w3 := g.w3; have hsb := g.hsb
   have := g.cy1; have := g.cyh; have := g.vy; have := g.fits; have := g.w1; have := g.h1
@@ -773,9 +774,24 @@ theorem doWrite_spec {t : VT} (i : Inv t) (b : UInt8) (adv : Bool) :
     simp only at h1 h2 h3 ⊢
     rw [cells r c h3, if_neg (by omega)]
     exact g.blank r c h1 h2 h3
+  have sy1 : ∀ K0, Sync K0 t →
+      Sync K0 { t with data := d', out := (emit t [.write b t.curFg t.curBg t.cursorX t.cursorY]).out } := by
+    intro K0 s
+    refine s.write (b := b) (fg := t.curFg) (bg := t.curBg) ⟨i.cx1, i.cxw⟩ ⟨g.cy1, g.cyh⟩ (emit_out _ _) rfl rfl rfl ?_
+    intro r c hr hc
+    simp only [vcell]
+    rw [cells _ c hc]
+    by_cases e1 : r = t.cursorY - 1 ∧ c = t.cursorX - 1
+    · have e2 : t.viewportY + r = t.viewportY + t.cursorY - 1 ∧ c = t.cursorX - 1 := ⟨by omega, e1.2⟩
+      rw [if_pos e1, if_pos e2]
+    · have e2 : ¬ (t.viewportY + r = t.viewportY + t.cursorY - 1 ∧ c = t.cursorX - 1) := by
+        intro h; exact e1 ⟨by omega, h.2⟩
+      rw [if_neg e1, if_neg e2]
+  have q1 : t.active = false → (emit t [.write b t.curFg t.curBg t.cursorX t.cursorY]).out = t.out := by
+    intro a; simp [emit_out, a]
   cases adv with
   | false =>
-    refine ⟨{ t with data := d', out := (emit t [.write b t.curFg t.curBg t.cursorX t.cursorY]).out }, ?_, ?_, ?_, ?_⟩
+    refine ⟨{ t with data := d', out := (emit t [.write b t.curFg t.curBg t.cursorX t.cursorY]).out }, ?_, ?_, ?_, ?_, sy1, q1⟩
     · simp [doWrite, e]
     · exact ⟨g1, i.cx1, i.cxw, i.off⟩
     · simpa using hput
@@ -787,8 +803,8 @@ theorem doWrite_spec {t : VT} (i : Inv t) (b : UInt8) (adv : Bool) :
     · -- wrap: line feed
       have g2 : Geo { t with data := d', out := (emit t [.write b t.curFg t.curBg t.cursorX t.cursorY]).out, dataOffset := t.dataOffset + 3, cursorX := t.cursorX + 1 } :=
         g1.frame rfl rfl rfl rfl rfl rfl rfl rfl rfl rfl rfl rfl g1.cy1 g1.cyh
-      obtain ⟨t', l1, l2, l3, l4⟩ := lf_spec g2
-      refine ⟨t', ?_, l2, ?_, ?_⟩
+      obtain ⟨t', l1, l2, l3, l4, l5, l6⟩ := lf_spec g2
+      refine ⟨t', ?_, l2, ?_, ?_, ?_, ?_⟩
       · simp [doWrite, e, e1, e2, hw]
         exact l1
       · rw [l3]
@@ -799,7 +815,11 @@ theorem doWrite_spec {t : VT} (i : Inv t) (b : UInt8) (adv : Bool) :
         rw [hp, ← hput]
         exact Term.lf_cx (absVT { t with data := d', out := (emit t [.write b t.curFg t.curBg t.cursorX t.cursorY]).out }) (t.cursorX + 1)
       · rw [l4]
-    · refine ⟨{ t with data := d', out := (emit t [.write b t.curFg t.curBg t.cursorX t.cursorY]).out, dataOffset := t.dataOffset + 3, cursorX := t.cursorX + 1 }, ?_, ?_, ?_, ?_⟩
+      · intro K0 s
+        exact l5 K0 ((sy1 K0 s).frame rfl rfl rfl (fun a => a) (fun _ _ _ _ => rfl))
+      · intro a
+        rw [l6 a]; exact q1 a
+    · refine ⟨{ t with data := d', out := (emit t [.write b t.curFg t.curBg t.cursorX t.cursorY]).out, dataOffset := t.dataOffset + 3, cursorX := t.cursorX + 1 }, ?_, ?_, ?_, ?_, ?_, q1⟩
       · simp [doWrite, e, e1, e2, hw]
       · refine ⟨g1.frame rfl rfl rfl rfl rfl rfl rfl rfl rfl rfl rfl rfl g1.cy1 g1.cyh, by simp,
           by simp; omega, ?_⟩
@@ -811,7 +831,8 @@ theorem doWrite_spec {t : VT} (i : Inv t) (b : UInt8) (adv : Bool) :
         rw [hp, ← hput]
         rfl
       · rfl
-
+      · intro K0 s
+        exact (sy1 K0 s).frame rfl rfl rfl (fun a => a) (fun _ _ _ _ => rfl)
 
 /-! ### cursor moves, `cr`, tab, `WriteByte` -/
 
@@ -832,7 +853,8 @@ theorem clamp_id {v hi : Nat} (h1 : 1 ≤ v) (h2 : v ≤ hi) : Term.clamp v hi =
 
 theorem setCursor_spec {t : VT} (i : Inv t) (x y : Nat) :
     Inv (setCursorPosition t x y) ∧ absVT (setCursorPosition t x y) = (absVT t).setCursor x y ∧
-      (setCursorPosition t x y).active = t.active ∧ (setCursorPosition t x y).out = t.out := by
+      (setCursorPosition t x y).active = t.active ∧ (setCursorPosition t x y).out = t.out ∧
+      (∀ K0, Sync K0 t → Sync K0 (setCursorPosition t x y)) := by
   have g := i.toGeo
   have hx : 1 ≤ (if x < 1 then 1 else if x > t.viewportWidth then t.viewportWidth else x) ∧
       (if x < 1 then 1 else if x > t.viewportWidth then t.viewportWidth else x) ≤ t.viewportWidth :=
@@ -849,39 +871,44 @@ theorem setCursor_spec {t : VT} (i : Inv t) (x y : Nat) :
       cursorY := if y < 1 then 1 else if y > t.viewportHeight then t.viewportHeight else y } := by
     simp [setCursorPosition, g.att]
   rw [e, udo_eq g1 hx.1 hx.2]
-  refine ⟨⟨g1.frame rfl rfl rfl rfl rfl rfl rfl rfl rfl rfl rfl rfl g1.cy1 g1.cyh, hx.1, hx.2, rfl⟩, ?_, rfl, rfl⟩
+  refine ⟨⟨g1.frame rfl rfl rfl rfl rfl rfl rfl rfl rfl rfl rfl rfl g1.cy1 g1.cyh, hx.1, hx.2, rfl⟩, ?_, rfl, rfl,
+    fun K0 s => s.frame rfl rfl rfl (fun a => a) (fun _ _ _ _ => rfl)⟩
   simp [absVT, Term.setCursor, Term.clamp]
 
 theorem cr_spec {t : VT} (i : Inv t) :
-    Inv (cr t) ∧ absVT (cr t) = { absVT t with cx := 1 } ∧ (cr t).active = t.active ∧ (cr t).out = t.out := by
+    Inv (cr t) ∧ absVT (cr t) = { absVT t with cx := 1 } ∧ (cr t).active = t.active ∧ (cr t).out = t.out ∧
+      (∀ K0, Sync K0 t → Sync K0 (cr t)) := by
   have g := i.toGeo
   have g1 : Geo { t with cursorX := 1 } := g.frame rfl rfl rfl rfl rfl rfl rfl rfl rfl rfl rfl rfl g.cy1 g.cyh
   unfold cr
   rw [udo_eq g1 (by simp) (by simpa using g.w1)]
   exact ⟨⟨g1.frame rfl rfl rfl rfl rfl rfl rfl rfl rfl rfl rfl rfl g1.cy1 g1.cyh, by simp, by simpa using g.w1, rfl⟩,
-    by simp [absVT], rfl, rfl⟩
+    by simp [absVT], rfl, rfl, fun K0 s => s.frame rfl rfl rfl (fun a => a) (fun _ _ _ _ => rfl)⟩
 
 theorem tabLoop_spec : ∀ (n : Nat) {t : VT}, Inv t →
-    ∃ t', tabLoop n t = .ok t' ∧ Inv t' ∧ absVT t' = Term.rep (·.putAdv 32) n (absVT t) ∧ t'.active = t.active := by
+    ∃ t', tabLoop n t = .ok t' ∧ Inv t' ∧ absVT t' = Term.rep (·.putAdv 32) n (absVT t) ∧ t'.active = t.active ∧
+      (∀ K0, Sync K0 t → Sync K0 t') ∧ (t.active = false → t'.out = t.out) := by
   intro n
   induction n with
-  | zero => intro t i; exact ⟨t, rfl, i, rfl, rfl⟩
+  | zero => intro t i; exact ⟨t, rfl, i, rfl, rfl, fun _ s => s, fun _ => rfl⟩
   | succ n ih =>
     intro t i
-    obtain ⟨t1, d1, i1, a1, s1⟩ := doWrite_spec i 32 true
-    obtain ⟨t2, d2, i2, a2, s2⟩ := ih i1
-    refine ⟨t2, by simp [tabLoop, d1, Res.bind, d2], i2, ?_, by rw [s2, s1]⟩
-    rw [a2, a1]; rfl
+    obtain ⟨t1, d1, i1, a1, s1, y1, q1⟩ := doWrite_spec i 32 true
+    obtain ⟨t2, d2, i2, a2, s2, y2, q2⟩ := ih i1
+    refine ⟨t2, by simp [tabLoop, d1, Res.bind, d2], i2, ?_, by rw [s2, s1], fun K0 s => y2 K0 (y1 K0 s), ?_⟩
+    · rw [a2, a1]; rfl
+    · intro a; rw [q2 (by rw [s1]; exact a), q1 a]
 
 theorem writeByte_spec {t : VT} (i : Inv t) (b : UInt8) :
-    ∃ t', writeByte t b = .ok t' ∧ Inv t' ∧ absVT t' = (absVT t).byte b ∧ t'.active = t.active := by
+    ∃ t', writeByte t b = .ok t' ∧ Inv t' ∧ absVT t' = (absVT t).byte b ∧ t'.active = t.active ∧
+      (∀ K0, Sync K0 t → Sync K0 t') ∧ (t.active = false → t'.out = t.out) := by
   have g := i.toGeo
   unfold writeByte Term.byte
   simp only [g.att, Bool.not_true, Bool.false_eq_true, if_false]
   by_cases h13 : b = 13
   · simp only [h13, if_true]
     have := cr_spec i
-    exact ⟨cr t, rfl, this.1, this.2.1, this.2.2.1⟩
+    exact ⟨cr t, rfl, this.1, this.2.1, this.2.2.1, this.2.2.2.2, fun _ => this.2.2.2.1⟩
   · by_cases h10 : b = 10
     · simp only [h13, h10, if_true, if_false]
       have hh : (10 : UInt8) ≠ 13 := by decide
@@ -896,15 +923,16 @@ theorem writeByte_spec {t : VT} (i : Inv t) (b : UInt8) :
         · have e : sub32 t.cursorX 1 = t.cursorX - 1 := by
             have := g.w3; have := i.cxw
             exact sub32_one (by omega) (by omega)
-          obtain ⟨j, a, s, _⟩ := setCursor_spec i (t.cursorX - 1) t.cursorY
-          obtain ⟨t', d1, i1, a1, s1⟩ := doWrite_spec j 32 false
-          refine ⟨t', by simp [hx, e, d1], i1, ?_, by rw [s1, s]⟩
-          rw [a1, a]
-          have := i.cxw; have := i.cy1; have := i.cyh; have := g.w1
-          have c1 : Term.clamp (t.cursorX - 1) t.viewportWidth = t.cursorX - 1 := clamp_id (by omega) (by omega)
-          have c2 : Term.clamp t.cursorY t.viewportHeight = t.cursorY := clamp_id (by omega) (by omega)
-          simp [hx, absVT, Term.setCursor, c1, c2]
-        · exact ⟨t, by simp [hx], i, by simp [hx, absVT], rfl⟩
+          obtain ⟨j, a, s, o, y⟩ := setCursor_spec i (t.cursorX - 1) t.cursorY
+          obtain ⟨t', d1, i1, a1, s1, y1, q1⟩ := doWrite_spec j 32 false
+          refine ⟨t', by simp [hx, e, d1], i1, ?_, by rw [s1, s], fun K0 z => y1 K0 (y K0 z), ?_⟩
+          · rw [a1, a]
+            have := i.cxw; have := i.cy1; have := i.cyh; have := g.w1
+            have c1 : Term.clamp (t.cursorX - 1) t.viewportWidth = t.cursorX - 1 := clamp_id (by omega) (by omega)
+            have c2 : Term.clamp t.cursorY t.viewportHeight = t.cursorY := clamp_id (by omega) (by omega)
+            simp [hx, absVT, Term.setCursor, c1, c2]
+          · intro z; rw [q1 (by rw [s]; exact z), o]
+        · exact ⟨t, by simp [hx], i, by simp [hx, absVT], rfl, fun _ s => s, fun _ => rfl⟩
       · by_cases h9 : b = 9
         · simp only [h9, if_true]
           have hh1 : (9 : UInt8) ≠ 13 := by decide
@@ -914,7 +942,6 @@ theorem writeByte_spec {t : VT} (i : Inv t) (b : UInt8) :
           exact tabLoop_spec t.tabWidth i
         · simp only [h13, h10, h8, h9, if_false]
           simpa using doWrite_spec i b true
-
 
 /-! ### `SetState` -/
 
